@@ -89,23 +89,28 @@ func observeRecv(t *Toks, h *rtp.Header, p *rtp.Packet, buf []byte) {
 	}
 }
 
-// observeC02: input `<buf> <opt prev>`, observation `recv(fresh) recv(reused)`.
-func observeC02(c *Case, buf []byte, prev []byte, hasPrev bool) {
-	c.I.Bytes(buf)
+// observeC02: input `<buf> <list prevs>`, observation `recv(fresh) recv(reused)`; the reused
+// receivers decoded every earlier input, in order, before.
+func observeC02(c *Case, buf []byte, prev []byte, hasPrev bool, more ...[]byte) {
+	var prevs [][]byte
 	if hasPrev {
-		c.I.Some().Bytes(prev)
-	} else {
-		c.I.None()
+		prevs = append(prevs, prev)
 	}
+	prevs = append(prevs, more...)
+	c.I.Bytes(buf).BytesList(prevs)
 	observeRecv(&c.O, &rtp.Header{}, &rtp.Packet{}, buf)
 	h, p := &rtp.Header{}, &rtp.Packet{}
-	if hasPrev {
-		try(func() { _, _ = h.Unmarshal(cloneBytes(prev)) })
-		try(func() { _ = p.Unmarshal(cloneBytes(prev)) })
+	for _, pv := range prevs {
+		pv := pv
+		try(func() { _, _ = h.Unmarshal(cloneBytes(pv)) })
+		try(func() { _ = p.Unmarshal(cloneBytes(pv)) })
 	}
 	observeRecv(&c.O, h, p, buf)
 	if len(buf) < 12 {
 		c.Trivial()
+	}
+	if len(prevs) > 1 {
+		c.Tag("prevs>1")
 	}
 }
 
@@ -375,7 +380,11 @@ func genC02(x *Ctx) {
 				p := c02Rich(r)
 				observeC02(c, buf, p[:r.Intn(len(p))], true)
 			default:
-				observeC02(c, buf, c02Structured(r, 96), true)
+				if r.Bool() { // longer histories: rich, poor, rich …
+					observeC02(c, buf, c02Rich(r), true, c02Valid(r, 8), c02Structured(r, 64))
+				} else {
+					observeC02(c, buf, c02Structured(r, 96), true, c02Rich(r))
+				}
 			}
 		})
 	}
